@@ -37,6 +37,10 @@ pub struct Norm<'a> {
     pub errors: Vec<String>,
     pub closure_depth: usize,
     pub canaries: Vec<String>,
+    /// R-STRSLICE: parameters whose declared type is `&str`
+    pub str_idents: BTreeSet<String>,
+    /// R-ITER(for): parameters whose (overridden) type is the `VxIter` model type
+    pub iter_idents: BTreeSet<String>,
 }
 
 const ITER_HEADS_M: &[&str] = &["vx_iter", "vx_into_iter", "vx_iter_mut", "vx_chars", "vx_char_indices", "vx_bytes", "vx_keys", "vx_values"];
@@ -49,7 +53,7 @@ impl<'a> Norm<'a> {
             loop_no: 0, closure_no: 0, if_no: 0, match_no: 0, assert_no: 0, return_no: 0, forpat_no: 0, tmp_no: 0,
             call_no: Default::default(), let_no: Default::default(), hoisted: vec![], log: Default::default(),
             raws: vec![], used_anchors: Default::default(), avail_anchors: Default::default(), errors: vec![],
-            closure_depth: 0, canaries: vec![],
+            closure_depth: 0, canaries: vec![], str_idents: Default::default(), iter_idents: Default::default(),
         }
     }
     pub fn bump(&mut self, r: &str) {
@@ -577,6 +581,10 @@ impl<'a> VisitMut for Norm<'a> {
                         chain = false;
                     }
                 }
+                // a bare identifier that names a `VxIter`-typed parameter is an iterator chain of length 0
+                if let Expr::Path(p) = &*f.expr {
+                    if p.path.get_ident().map(|i| self.iter_idents.contains(&i.to_string())).unwrap_or(false) { chain = true; }
+                }
                 if chain {
                     let ex = &f.expr;
                     *f.expr = parse_quote!(#ex.into_vec());
@@ -849,6 +857,24 @@ impl<'a> VisitMut for Norm<'a> {
                             }
                         }
                         if let Ok(np) = parse_str::<Path>(&to) { p.path = np; self.bump("R-ITER"); }
+                    }
+                }
+            }
+            Expr::Reference(r) if r.mutability.is_none() => {
+                // R-STRSLICE: `&x[a..b]` / `&x[a..]` / `&x[..b]` with `x` a `&str` parameter (or a shadowing rebinding of it)
+                if let Expr::Index(ix) = &*r.expr {
+                    let is_str = if let Expr::Path(p) = &*ix.expr { p.path.get_ident().map(|i| self.str_idents.contains(&i.to_string())).unwrap_or(false) } else { false };
+                    if let (true, Expr::Range(rg)) = (is_str, &*ix.index) {
+                        if matches!(rg.limits, RangeLimits::HalfOpen(_)) {
+                            let x = &ix.expr;
+                            match (rg.start.as_ref(), rg.end.as_ref()) {
+                                (Some(a), Some(b)) => { replace = Some(parse_quote!(#x.vx_slice(#a, #b))); }
+                                (Some(a), None) => { replace = Some(parse_quote!(#x.vx_slice_from(#a))); }
+                                (None, Some(b)) => { replace = Some(parse_quote!(#x.vx_slice_to(#b))); }
+                                (None, None) => {}
+                            }
+                            if replace.is_some() { self.bump("R-STRSLICE"); }
+                        }
                     }
                 }
             }
